@@ -37,15 +37,25 @@ mkdir -p "$BIN" "$ROOT/evidence"
 OVERLAY=$BIN/overlay.json
 echo "{\"Replace\": {\"$REPO/src/analyzer/zz_verif_reset.go\": \"$ROOT/hooks/analyzer/zz_verif_reset.go\"$SKIP}}" > "$OVERLAY"
 export VERIF_REPO=$REPO VERIF_BIN=$BIN
+# Two builds of the same harness: "mc" carries the hook (tag verif + overlay) and is used for the three checks that
+# drive the process-wide configuration in-process (C08, C09, C10); "mc-plain" is built without tag and overlay and
+# runs everything else, so a tree on which the hook file no longer compiles still gets the other sixteen checks.
 build_mc() {
-  go build "${MODARGS[@]}" -tags verif -overlay "$OVERLAY" -o "$BIN/mc" ./cmd/mc || { echo "HARNESS-ERROR: harness build failed"; exit 2; }
+  go build "${MODARGS[@]}" -tags verif -overlay "$OVERLAY" -o "$BIN/mc" ./cmd/mc || { echo "HARNESS-ERROR: harness build (hook variant) failed"; exit 2; }
+}
+build_plain() {
+  if [ -n "$SKIP" ]; then
+    go build "${MODARGS[@]}" -overlay "$OVERLAY" -o "$BIN/mc-plain" ./cmd/mc || { echo "HARNESS-ERROR: harness build failed"; exit 2; }
+  else
+    go build "${MODARGS[@]}" -o "$BIN/mc-plain" ./cmd/mc || { echo "HARNESS-ERROR: harness build failed"; exit 2; }
+  fi
 }
 build_tool() {
   (cd "$REPO" && go build -o "$BIN/gogreement" ./cmd/gogreement) || { echo "HARNESS-ERROR: gogreement build failed"; exit 2; }
 }
 case "${1:-}" in
   build)
-    build_mc; build_tool; exit 0;;
+    build_mc; build_plain; build_tool; exit 0;;
   replay)
     python3 - "$2" <<'PY'
 import json,sys
@@ -56,5 +66,7 @@ for k,v in (j.get("detail") or {}).items():
 PY
     exit 0;;
 esac
-build_mc
-exec "$BIN/mc" "$@"
+case "${1:-}" in
+  C08|C09|C10) build_mc; exec "$BIN/mc" "$@";;
+  *) build_plain; exec "$BIN/mc-plain" "$@";;
+esac
